@@ -110,11 +110,6 @@ def accSpecO (ρ : Rep n R) (a : Aut V) (o : AccOpts) :
     | s :: _ => ρ.accSpec a { o with asStart := true } (k + 1) s
     | [] => .error "IndexError"
 
-/-- the options in force after `if state is None: as_start = True` -/
-def effOpts (o : AccOpts) : Option V → AccOpts
-  | some _ => o
-  | none => { o with asStart := true }
-
 /-- pairs ↦ what Python returns (`with_words` decides whether the words are returned) -/
 def toRes (o : AccOpts) (pairs : List (String × DMat n n R)) : AccRes n R :=
   ⟨pairs.map Prod.snd, if o.withWords then pairs.map Prod.fst else []⟩
@@ -137,7 +132,7 @@ theorem memoOK_nil (ρ : Rep n R) (a : Aut V) (o : AccOpts) : MemoOK ρ a o [] :
   intro k st r h
   cases h
 
-theorem dget_dset {κ ν : Type} [DecidableEq κ] (d : List (κ × ν)) (k k' : κ) (v : ν) :
+theorem memo_dget_dset {κ ν : Type} [DecidableEq κ] (d : List (κ × ν)) (k k' : κ) (v : ν) :
     dget (dset d k v) k' = if k = k' then some v else dget d k' := by
   induction d with
   | nil =>
@@ -159,7 +154,7 @@ theorem memoOK_dset {ρ : Rep n R} {a : Aut V} {o : AccOpts} {memo : Memo V n R}
     (h : MemoOK ρ a o memo) (k : Nat) (st : Option V) (pairs : List (String × DMat n n R))
     (hs : ρ.accSpecO a o k st = .ok pairs) : MemoOK ρ a o (dset memo (k, st) (toRes o pairs)) := by
   intro k' st' r hr
-  rw [dget_dset] at hr
+  rw [memo_dget_dset] at hr
   split_ifs at hr with heq
   · cases heq
     cases hr
